@@ -127,7 +127,9 @@ def family_strategies():
         ["a*x + b", "a*x**2 + b", "sin(a*x) + b", "a + b*x"]), "a": st.sampled_from([1.0, 2.0]),
         "b": st.sampled_from([0.0, 1.0]), "route": st.sampled_from(["call", "numpy", "numba"]),
         "seed": seed})
-    return {"op": op_req, "vop": vec_req, "pde": pde_req, "expr": expr_req}
+    fexpr_req = st.fixed_dictionaries({"kind": st.just("fexpr"), "grid": gi, "newgrid": st.booleans(),
+                                       "a": st.sampled_from([1.0, 2.0]), "rank": st.sampled_from([0, 0, 1])})
+    return {"op": op_req, "vop": vec_req, "pde": pde_req, "expr": expr_req, "fexpr": fexpr_req}
 
 
 def family_of(req):
@@ -138,6 +140,8 @@ def family_of(req):
         return "vop"
     if k == "expr":
         return "expr"
+    if k == "fexpr":
+        return "fexpr"
     return "op"
 
 
@@ -178,7 +182,7 @@ def near_request(draw, prev, fams):
 
 def request_strategy(h):
     fams = family_strategies()
-    base = st.one_of(fams["op"], fams["op"], fams["vop"], fams["pde"], fams["expr"])
+    base = st.one_of(fams["op"], fams["op"], fams["vop"], fams["pde"], fams["expr"], fams["fexpr"])
     if not h.reqs:
         return base
     prev = st.sampled_from(h.reqs[-4:])
@@ -260,6 +264,17 @@ def evaluate(req, store):
             return [np.asarray(e(x))]
         f = e.get_function(backend=req["route"])
         return [np.asarray(f(x))]
+    if kind == "fexpr":
+        # field from an expression using the special `cartesian` constant; the history keeps
+        # ONE consts dictionary and passes it to every such call (a caller's own dictionary)
+        grid, spec = _grid(req, store)
+        consts = store.setdefault("shared_consts", {})
+        consts["a"] = req["a"]
+        cls = [pde.ScalarField, pde.VectorField][req["rank"]]
+        text = "a*cartesian[0] + 1"
+        if req["rank"] == 1:
+            text = [text] * grid.dim
+        return [cls.from_expression(grid, text, consts=consts).data]
     if kind.startswith("f_"):
         return evaluate_field_op(req, store)
     grid, spec = _grid(req, store)
